@@ -2,7 +2,8 @@
 # Build the framework offline: regenerate translated models from /repo, full .vo build.
 set -e
 cd "$(dirname "$0")"
-export PYTHONPATH=/repo/src:/verif/harness PYTHONHASHSEED=0 PYTHONDONTWRITEBYTECODE=1
+export VERIF_REPO="${VERIF_REPO:-/repo}"
+export PYTHONPATH="$VERIF_REPO/src:$PWD/harness" PYTHONHASHSEED=0 PYTHONDONTWRITEBYTECODE=1
 mkdir -p coq/gen evidence replays build
 /venv/bin/python harness/translate_all.py || echo "translator failed (reported by the checks)"
 cd coq
